@@ -75,6 +75,43 @@ def star_scripts(r):
     return out
 
 
+def core_scripts(r, n):
+    """scripts of 1-4 statements of the fragment of c04_script_exact_on_core: INSERT [cols] / CTAS / VIEW over one SELECT (no
+    WHERE) from 1-2 distinct base tables, column references qualified (or one table in scope), stars, item aliases; a small pool
+    of tables so that chains, diamonds, dead ends, tables written twice and cycles arise"""
+    import astgen as A
+    tabs = [(None, "a"), (None, "b"), (None, "c"), ("s", "d"), ("s", "e"), (None, "f")]
+    cols = ["x", "y", "z"]
+    out = []
+    for _ in range(n):
+        ss = []
+        for _k in range(r.choice([1, 2, 2, 3, 3, 4])):
+            tgt = r.choice(tabs)
+            srcs = r.sample([t for t in tabs if t != tgt], r.choice([1, 1, 2]))
+            rels, names = [], []
+            for j, t in enumerate(srcs):
+                al = r.choice([None, None, "p%d" % j])
+                rels.append(A.rtable(t[0], t[1], al))
+                names.append(al or t[1])
+            items = []
+            if r.random() < 0.2:
+                items.append(A.istar(None if len(rels) == 1 and r.random() < 0.5 else names[0]))
+            else:
+                for _i in range(r.choice([1, 2, 2, 3])):
+                    q = r.choice(names) if (len(rels) > 1 or r.random() < 0.5) else None
+                    items.append(A.iexpr(A.col(q, r.choice(cols)), r.choice([None, None, r.choice(cols)])))
+            q = A.select(items, rels, comma=r.random() < 0.3)
+            kind = r.choice(["insert", "insert", "insertc", "ctas", "view"])
+            if kind == "insertc" and items[0][0] != "star":
+                ss.append(("insert", tgt, r.sample(cols + ["k", "m"], len(items)), q))
+            elif kind in ("ctas", "view"):
+                ss.append((kind, tgt, q))
+            else:
+                ss.append(("insert", tgt, None, q))
+        out.append(ss)
+    return out
+
+
 def main() -> int:
     ck = Check("C04")
     ck.assumptions += ["the per-statement dataflows composed in S1 are the implementation's own per-statement results (their exactness is C02)",
@@ -164,6 +201,33 @@ def main() -> int:
                 spec_failures.append(dict(case, suite="S1-composition", impl_pairs=got, composition_of_statement_dataflows=exp,
                                           statement_dataflows=x["stmt_pairs"],
                                           spec="end-to-end pairs equal the relational composition of the per-statement dataflows"))
+    # S3: the theorem c04_script_exact_on_core speaks about rendered trees; here the implementation is compared with the
+    # executable specification spec_script_pairs (evaluated in Coq together with the theorem's guard) on generated scripts
+    import astgen
+    from common import coq_eval
+    cs = core_scripts(r, 150 if quick else 2500)
+    exprs = ["(if forallb core_ok [%s] then \"in:\" else \"out:\") ++ join \";\" (spec_script_pairs \"\" [%s])"
+             % ("; ".join(astgen.g_stmt(x) for x in ss), "; ".join(astgen.g_stmt(x) for x in ss)) for ss in cs]
+    spec_out = coq_eval("From SV Require Import Ast.Spec Tree.LemmaB Tree.LemmaBProofs Tree.ScriptExact.\nOpen Scope string_scope.", exprs, shard=200)
+    impl_out = t2tie.summaries([{"sql": "\n".join(astgen.to_sql(x) for x in ss), "dialect": "ansi", "metadata": None, "config": {}} for ss in cs])
+    dist["s3_core_scripts"] = {"scripts": len(cs), "inside_guard": 0, "nonempty": 0, "statements": {}}
+    for ss, sp, im in zip(cs, spec_out, impl_out):
+        ck.count()
+        sql = "\n".join(astgen.to_sql(x) for x in ss)
+        if not sp.startswith("in:"):
+            continue
+        d3 = dist["s3_core_scripts"]
+        d3["inside_guard"] += 1
+        d3["statements"][len(ss)] = d3["statements"].get(len(ss), 0) + 1
+        exp = sp[3:]
+        got = im.split("#", 1)[1] if "#" in im else im
+        if exp:
+            d3["nonempty"] += 1
+            ck.nontriv(("core-script", sql))
+        if got != exp:
+            spec_failures.append({"suite": "S3-core-script-vs-specification", "sql": sql, "impl_pairs": got, "spec_script_pairs": exp,
+                                  "spec": "the end-to-end pairs of a script are the pairs (unwritten source column, unread target column) "
+                                          "connected by one or more of the statements' column flows (theorem c04_script_exact_on_core)"})
     ok = [x for x in res if "summary" in x and x["summary"].split("#", 1)[1]]
     if ok:
         ck.sample({"script": ok[0]["rec"]["sql"], "pairs": ok[0]["summary"].split("#", 1)[1][:300]})
